@@ -498,7 +498,7 @@ MUTANTS = [
      "how": "survived; a separate probe (6 specs incl. the tie spec, PYTHONHASHSEED 0/1/4242, un-canonicalised trees) shows bit-identical output: behaviourally equivalent on this domain, downstream code re-sorts"},
 ]
 MANIFEST = {
-    "level_text": "Differential testing of map_workload_to_arch against itself across configurations on generated 2-3 Einsum specs: 1 worker vs seeded permuted completion orders (schedule hook) vs real loky workers vs other PYTHONHASHSEED values (helper processes) vs cold/warm/cross-process cache_dir reads (with a sibling spec differing only in spec.mapper already cached): sorted (objective vector, canonical mapping structure) lists must be identical. No counterexample in N specs x ~10 configurations beyond the listed known findings; not a proof.",
+    "level_text": "Differential testing of map_workload_to_arch against itself across configurations on generated 2-3 Einsum specs (hook schedules with 64, 4 and 16 emulated workers; a light chained-matmul family compares only 1 vs 16 vs 64 workers): 1 worker vs seeded permuted completion orders (schedule hook) vs real loky workers vs other PYTHONHASHSEED values (helper processes) vs cold/warm/cross-process cache_dir reads (with a sibling spec differing only in spec.mapper already cached): sorted (objective vector, canonical mapping structure) lists must be identical. No counterexample in N specs x ~10 configurations beyond the listed known findings; not a proof.",
     "level_note": "Trusted: vf/gen/canon.py as the identity of a mapping structure; the hook's permutations are schedules real workers could produce. Small specs only (2-3 Einsums, bounds <= 6).",
     "technique": "differential testing across scheduling / hashing / caching configurations with a controlled-schedule hook (Hypothesis-generated specs)",
 }
